@@ -75,6 +75,7 @@ DrawGraph ==
     /\ \E g \in {g \in GraphChoices : WellSized(g) /\ UsesAll(g)}, v \in 1..3, d \in {"None", "Up", "Down", "Both"}, lm \in LevelModes :
           /\ v <= g[1]
           /\ (lm # <<"c", "M">> => d \in {"None", "Both"})              \* the reduced product for the other levels / the comment
+          /\ (lm # <<"c", "M">> /\ Tier = 0 => Cardinality(g[2]) <= 2)
           /\ item' = [g |-> g, v |-> v, d |-> d, lm |-> lm]
     /\ stage' = "content" /\ UNCHANGED <<fam, W, s, canon>>
 DrawContent ==
